@@ -5,6 +5,8 @@ import (
 	"encoding/hex"
 	"errors"
 	"fmt"
+	"strconv"
+	"strings"
 	"sync"
 
 	ds "github.com/ipfs/go-datastore"
@@ -27,9 +29,18 @@ func newPrefixKV(kvStore ds.Batching, prefix string) ds.Batching {
 // BatchQueue implements a persistent queue for transaction batches
 type BatchQueue struct {
 	queue        []coresequencer.Batch
-	maxQueueSize int // maximum number of batches allowed in queue (0 = unlimited)
+	keys         []string // datastore key of queue[i]
+	nextSeq      uint64   // sequence number of the next batch to be added
+	maxQueueSize int      // maximum number of batches allowed in queue (0 = unlimited)
 	mu           sync.Mutex
 	db           ds.Batching
+}
+
+// batchKey builds the datastore key of a batch. The zero padded sequence number makes the key unique (two
+// batches with identical contents must not share one record) and makes the key order the insertion order,
+// which is what Load relies on to restore the queue after a restart.
+func batchKey(seq uint64, hash []byte) string {
+	return fmt.Sprintf("%020d-%s", seq, hex.EncodeToString(hash))
 }
 
 // NewBatchQueue creates a new BatchQueue with the specified maximum size.
@@ -57,7 +68,7 @@ func (bq *BatchQueue) AddBatch(ctx context.Context, batch coresequencer.Batch) e
 	if err != nil {
 		return err
 	}
-	key := hex.EncodeToString(hash)
+	key := batchKey(bq.nextSeq, hash)
 
 	pbBatch := &pb.Batch{
 		Txs: batch.Transactions,
@@ -75,6 +86,8 @@ func (bq *BatchQueue) AddBatch(ctx context.Context, batch coresequencer.Batch) e
 
 	// Then add to in-memory queue
 	bq.queue = append(bq.queue, batch)
+	bq.keys = append(bq.keys, key)
+	bq.nextSeq++
 
 	return nil
 }
@@ -89,16 +102,12 @@ func (bq *BatchQueue) Next(ctx context.Context) (*coresequencer.Batch, error) {
 	}
 
 	batch := bq.queue[0]
+	key := bq.keys[0]
 	bq.queue = bq.queue[1:]
-
-	hash, err := batch.Hash()
-	if err != nil {
-		return &coresequencer.Batch{Transactions: nil}, err
-	}
-	key := hex.EncodeToString(hash)
+	bq.keys = bq.keys[1:]
 
 	// Delete the batch from the WAL since it's been processed
-	err = bq.db.Delete(ctx, ds.NewKey(key))
+	err := bq.db.Delete(ctx, ds.NewKey(key))
 	if err != nil {
 		// Log the error but continue
 		fmt.Printf("Error deleting processed batch: %v\n", err)
@@ -114,8 +123,11 @@ func (bq *BatchQueue) Load(ctx context.Context) error {
 
 	// Clear the current queue
 	bq.queue = make([]coresequencer.Batch, 0)
+	bq.keys = make([]string, 0)
+	bq.nextSeq = 0
 
-	q := query.Query{}
+	// key order is insertion order (see batchKey)
+	q := query.Query{Orders: []query.Order{query.OrderByKey{}}}
 	results, err := bq.db.Query(ctx, q)
 	if err != nil {
 		return fmt.Errorf("error querying datastore: %w", err)
@@ -134,7 +146,16 @@ func (bq *BatchQueue) Load(ctx context.Context) error {
 			fmt.Printf("Error decoding batch for key '%s': %v. Skipping entry.\n", result.Key, err)
 			continue
 		}
+		key := strings.TrimPrefix(result.Key, "/")
 		bq.queue = append(bq.queue, coresequencer.Batch{Transactions: pbBatch.Txs})
+		bq.keys = append(bq.keys, key)
+		// continue numbering after the highest sequence number found (records written by older versions
+		// are keyed by the bare hash and carry none)
+		if idx := strings.IndexByte(key, '-'); idx > 0 {
+			if seq, err := strconv.ParseUint(key[:idx], 10, 64); err == nil && seq >= bq.nextSeq {
+				bq.nextSeq = seq + 1
+			}
+		}
 	}
 
 	return nil
